@@ -183,6 +183,7 @@ func c17SortedKeys(m map[string][]string) []string {
 // c17Seen is what one request looked like at the origin, before any parsing.
 type c17Seen struct {
 	Path    string
+	Query   string // raw query (lanes tag their requests with an id to recognise stale ones)
 	Status  int // what the origin answered
 	Method  string
 	Proto   string
@@ -262,7 +263,7 @@ func (o *c17Origin) handler(w http.ResponseWriter, r *http.Request) {
 		w.Header().Set("Location", "/final?"+r.URL.RawQuery)
 	}
 	o.mu.Lock()
-	o.seen = append(o.seen, c17Seen{Path: r.URL.Path, Status: status, Method: r.Method, Proto: r.Proto, Header: r.Header.Clone(), CL: r.ContentLength,
+	o.seen = append(o.seen, c17Seen{Path: r.URL.Path, Query: r.URL.RawQuery, Status: status, Method: r.Method, Proto: r.Proto, Header: r.Header.Clone(), CL: r.ContentLength,
 		TE: append([]string(nil), r.TransferEncoding...), Body: body, BodyErr: err})
 	o.mu.Unlock()
 	w.WriteHeader(status)
